@@ -69,6 +69,9 @@ class SlowSource(AudioSource):
             self.sched.yield_point("src-read")
         elif self.jitter:
             time.sleep(self.jitter[len(self.handed) % len(self.jitter)])
+        if getattr(self, "abort", False):
+            self.none_returns += 1
+            return None  # the harness ends a run whose stop request failed
         if self.inner is not None:
             chunk = self.inner.read(size) or b""
         else:
@@ -509,6 +512,12 @@ def run_pipeline(case, scheduled=True, stop_step=None, jitter=None, endless=Fals
                         th_.join(60)
                         out.stop_error = box[0] if box else None
                         out.stop_all_returned = not th_.is_alive() and not box
+                        if not out.stop_all_returned:
+                            src.abort = True  # let the threads end so that the verdict can be given
+                            try:
+                                tokenizer.stop_all()
+                            except BaseException:  # noqa: BLE001
+                                pass
                     else:
                         tokenizer.stop_all()
                         out.stop_all_returned = True
